@@ -72,6 +72,7 @@ def setup():
         rc, o, e = sh(f'git -C /repo worktree add --detach {REPO} HEAD')
         assert rc == 0, e
     sh(f'git -C {REPO} checkout -q -- .')
+    sh(f'git -C {REPO} checkout -q --detach ' + sh('git -C /repo rev-parse HEAD')[1].strip())
     sh(f"rsync -a --delete --exclude .git --exclude harness/target --exclude work /verif/ {VERIF}/")
     for f in os.listdir(f'{VERIF}/harness/src'):
         p = f'{VERIF}/harness/src/{f}'
